@@ -1,5 +1,5 @@
 CFG = {
-    "modules": ["Parsley.Props.C14", "Parsley.Props.C14Spelled"],
+    "modules": ["Parsley.Props.C14", "Parsley.Props.C14Spelled", "Parsley.Props.C14Filtered"],
     "theorems": [
         "Parsley.C14.objstm_roundtrip", "Parsley.C14.objstm_accepted_wellformed", "Parsley.C14.objstm_never_panics",
         "Parsley.C14.objstm_rejects_order", "Parsley.C14.objstm_rejects_short", "Parsley.C14.first_beyond_rejected",
@@ -13,29 +13,50 @@ CFG = {
         "Parsley.C14.header_order_rejected_c", "Parsley.C14.header_short_rejected_c",
         "Parsley.C14.objstm_rejects_order_c", "Parsley.C14.objstm_rejects_short_c",
         "Parsley.C14.layoutsC_of_layoutsOK", "Parsley.C14.pairsOf_inc", "Parsley.C14.exMs_ok",
+        # C14c: the decoder parameter instantiated as the loader does (Loader.objDec = C06 filters + C07 predictor tail)
+        "Parsley.C14.objstm_roundtrip_filtered", "Parsley.C14.objstm_roundtrip_encoded", "Parsley.C14.stmDict_spells",
+        "Parsley.C14.objstm_filter_error_rejects", "Parsley.C14.objstm_decode_stream_error_rejects",
+        "Parsley.C14.objstm_filter_dict_rejects", "Parsley.C14.objstm_corrupt_layer_rejects", "Parsley.C14.corruptLayer_fails",
+        "Parsley.C14.decodeLoop_objDec", "Parsley.C14.filters_toF", "Parsley.C14.objStmParse_decodeStream",
+        "Parsley.C14.stmChain_decodes", "Parsley.C14.stmChain_of_chainEnc", "Parsley.C14.stmLayer_decodes",
+        "Parsley.C14.flate_pred_layer", "Parsley.C14.plain_layer", "Parsley.C14.predictorOf_one",
+        "Parsley.C14.filters_of_spelled", "Parsley.C14.decodesTo_of_storedAs", "Parsley.C14.objstm_never_panics_loader",
+        "Parsley.C14.objstm_filtered_accepted_wellformed", "Parsley.C14.first_beyond_rejected_filtered", "Parsley.C14.exChain",
     ],
     "partial": {
-        "(filters)": "the filter decoders are a parameter of the model (C06 owns them): the theorems hold for every decoder function; "
-            "the real FlateDecode path is exercised by the harness on generated zlib streams",
+        "(filters: Huffman-coded Flate)": "closed by C14c for the loader's decoders (objstm_roundtrip_filtered: ASCIIHex, ASCII85, Flate over stored blocks and "
+            "over C06's fixed-Huffman encoder, Flate + TIFF/PNG predictor, chains of any length). Still a hypothesis, not a theorem: a zlib stream with "
+            "DYNAMIC Huffman blocks enters only through C06.LayerEnc.flateAny / StmLayer.pred (the modelled inflate's verdict on it is assumed; tie to the "
+            "real zlib = correspondence runs of C06 and of this check on generated streams); DCTDecode is opaque (the loader's stub fails); "
+            "/Predictor 15 with mixed per-row filter types is outside C07's predictor_roundtrip",
     },
     "n": {"quick": 4000, "thorough": 250000},
     "exhaustive": {"quick": False, "thorough": True},
     "shrink": False,
-    "rule": "corpus (defect #17 input, the unit-test fixtures, one case per rejection rule, huge numbers, comments.case: the concrete instance of objstm_spelled_roundtrip and headers with comments in every run, accepted and rejected) + exhaustive small space: every content over "
+    "rule": "corpus (defect #17 input, the unit-test fixtures, one case per rejection rule, huge numbers, comments.case: the concrete instance of objstm_spelled_roundtrip and headers with comments in every run, accepted and rejected; filtered.case: the concrete instance of objstm_roundtrip_encoded - hex over Flate + PNG Up - and the two concrete corrupt-layer rejections) + exhaustive small space: every content over "
             "{1,2,blank,x} and every content over {1,blank,%,LF} containing % or LF (comments with and without a terminating LF before an offset), of length <= 4 (thorough: <= 5), x every offset pair (o0,o1) in [0,len+1]^2 under a 2-pair header (quick: every 3rd), judged "
             "by a small digit reader that looks only at the bytes from the declared offset on + random streams: 1..6 members with values from the C02 generator spelled by the C02 encoder, ids incl. "
             "2^32 and 2^63-1, three gap styles (contiguous as the unit tests / white space / arbitrary non-object bytes incl. unbalanced delimiters, "
             "comments terminated and NOT terminated before the next declared offset (object-like comment text, CR-only line ends), random bytes, before the first and after the last member), leading white space inside a member, random header layouts (all six "
-            "white-space bytes, comments, padding and junk before /First), 5 dictionary spellings, predefined unrelated ids and same id under "
-            "generation 1, view cursor not at 0, 1/6 of them again through FlateDecode (stored-block zlib, junk before the cursor); per stream one "
+            "white-space bytes, comments, padding and junk before /First - also nine NUL bytes, an all-zero ASCII85 group), 5 dictionary spellings, predefined unrelated ids and same id under "
+            "generation 1, view cursor not at 0, 1/6 of them again through FlateDecode (stored-block zlib, junk before the cursor); 1/3 of them again through a FILTER CHAIN "
+            "(C14c; the model runs the loader's decoders Loader.objDec, the harness the real ones): alternately the systematic enumeration of every chain of length 1 and 2 over the "
+            "six layer kinds of C06's exhaustive stream (ASCIIHex mixed case/white space/odd digit, ASCII85 with z, Flate stored blocks, fixed-Huffman literals, fixed-Huffman "
+            "LZ77 blocks in two framings) and chains of length 1..3 drawn by C06's randChain with each of C06's four /DecodeParms variants; one time in three a Flate layer "
+            "with a TIFF (2) or PNG (10..14) predictor is inserted at a random position (rows = a divisor of the layer's input, colours 1..4, 1/2/4/8/16 bits, /Colors and "
+            "/BitsPerComponent written or defaulted; encoder = C07's PredSpec.predict); /Filter spelled as a name (+ parameter dictionary), an array of names, parallel arrays; "
+            "junk before the cursor, EOL bytes after the data; then for 1/4 of them ONE layer corrupted by a C06 corruption (illegal hex character, missing EOD, stray ~, illegal "
+            "ASCII85 character, group >= 2^32, misaligned z, zlib truncated / Adler-32 / header / LEN / method): must be rejected; for 1/4 one encoded byte altered or the content "
+            "truncated (correspondence + no panic); per stream one "
             "single-rule corruption: non-increasing offset, /N larger than the pairs present, /First >= |data|, next offset inside the previous "
             "object, id predefined, id repeated, 14 dictionary defects, offset beyond the content / 2^32 / 2^63-1 / 2^63 / 2^64 / 10^30, id replaced "
             "by a fresh one (must still extract), nesting bound below the deepest member, byte truncation/alteration and arbitrary header-number "
-            "replacement (correspondence + no panic). non-trivial = >= 2 members or a Flate case (rt), both offsets inside the content and distinct "
+            "replacement (correspondence + no panic). non-trivial = >= 2 members or a Flate / filter-chain case (rt), both offsets inside the content and distinct "
             "(ex), >= 12 data bytes (rej/mut); distinct by case hash",
     "trusted_base": COMMON_TB + [
         "modelled, not verified: ParseBuffer views as byte lists with a view-relative cursor (C17), BTreeMap as a key-ordered association list",
-        "parameter of the model, not modelled here: the filter decoders (FlateDecode, ASCII85Decode, ASCIIHexDecode, DCTDecode) - C06",
+        "the filter decoders are a parameter of Model/ObjStm.lean; theorems of Props/C14Filtered.lean and the executable model of the correspondence run instantiate it as the loader does "
+            "(Loader.objDec = C06 model of ASCIIHex/ASCII85/Flate + C07 predictor tail; their faithfulness is what C06/C07 check); DCTDecode is an opaque stub that fails",
         "reused models of the token parsers and parse_pdf_obj (Model/Prim.lean, Model/Obj.lean; theorems of C15/C16)",
         "the stream dictionary is handed to both sides as text and read by the crate's DictP / the model's dictionary parser",
     ],
@@ -48,7 +69,8 @@ CFG = {
 LEVEL = {
     "design_ref": "DESIGN.md 3.C14",
     "technique": "Lean 4 theorems (encoder round trip for the header, relational extraction semantics for the content, soundness + completeness "
-                 "+ fuel sufficiency of both loops) over an executable model of ObjStreamP + differential correspondence with the Rust parser",
+                 "+ fuel sufficiency of both loops; composition with C02's spell_parse and with C06/C07's filter theorems) over an executable model of ObjStreamP "
+                 "instantiated with the loader's decoders + differential correspondence with the Rust parser",
     "text": "Machine-checked proof, for all dictionaries, header layouts, contents, contexts and decoder functions, that the model of ObjStreamP::parse "
             "(get_dict_info, filters, RestrictView/RestrictViewFrom, parse_metadata, parse_stream, register_obj) extracts from a well-formed stream exactly "
             "the objects located at the declared offsets, in header order, under (id, 0), binding them in the context and changing nothing else, "
@@ -62,5 +84,16 @@ LEVEL = {
             "comment run and ANY legal spelling (C02.Spells) of ANY value the depth budget has room for, in a context legal after it (C02.Follows), with "
             "arbitrary gap bytes in between - the parser returns (id_k, 0, value_k) in header order and the context binds exactly (id_k, 0) -> value_k; "
             "the header acceptance and the two header rejections are proved for layouts with comments too (the real parse_metadata skips comments: "
-            "checked through the harness, corpus/C14/comments.case).",
+            "checked through the harness, corpus/C14/comments.case). "
+            "Composed with C06/C07 (Props/C14Filtered.lean, Lemmas/ObjStmFiltered.lean), for the decoders the loader really plugs in (Loader.objDec): the filter loop "
+            "of ObjStreamP::parse IS C06's runChain on the translated filter list (decodeLoop_objDec, all lists and inputs) and the two models of StreamT::filters agree "
+            "(filters_toF); objstm_roundtrip_filtered / objstm_roundtrip_encoded: a stream object whose dictionary holds /Type /ObjStm /N /First [/Length] and spells a filter "
+            "chain in any of the accepting ways (name, name + parameter dictionary, array, parallel arrays; stmDict = what an encoder writes) and whose CONTENT is, from the "
+            "cursor on, that chain's encoding of header ++ padding ++ spelled members - layers: ASCIIHex and ASCII85 in any conformant spelling, Flate over stored blocks in any "
+            "partition + trailing bytes, Flate over C06's fixed-Huffman encoder, Flate + TIFF/PNG predictor (C07 predictor_roundtrip) over any zlib stream that inflates to the "
+            "filtered rows, chains of any length and order - yields exactly (id_k, 0, value_k) in header order, binding exactly these. Rejection side: if the chain's decoder "
+            "fails (objstm_filter_error_rejects), in particular behind correctly encoded outer layers at a layer corrupted as in C06's corrupt_is_error or naming an "
+            "unsupported filter (objstm_corrupt_layer_rejects), or if StreamT::filters refuses the /Filter x /DecodeParms pairing, the parser returns an error and the "
+            "context UNCHANGED (no member defined); no panic with these decoders (objstm_never_panics_loader). Dynamic-Huffman zlib streams enter as a hypothesis on the "
+            "modelled inflate only.",
 }
